@@ -272,31 +272,33 @@ def macro_cases(start):
                ("{} {}", "f(2 * $e, $e2), 1 + $e2 * 2"),
                # fragments that are no expressions inside a block argument: a statement and an item stay what they are
                ("{}", "{ $s; 2 * $e }"), ("{} {}", "{ $i 2 * $e }, { $s; $e2 - 1 }")]
-    frags = ("*x + 1", "*y - *x")
     for derive, (attr, ph) in TRAITS.items():
+      # (fragments with field references and operators; fragments that are nothing but paths joined by `+` - which also read as a type)
+      for frags in (("*x + 1", "*y - *x"), ("K1 + K2", "self::K2 + K1 + K1")):
         for lit, args in argsets:
-            for shape in ("struct", "enum"):
-                if shape == "struct":
-                    decl = "#[derive(derive_more::%s)] #[%s(%s, %s)] pub struct $n { pub $f: i32, pub $g: i32 }" % (derive, attr, lit_rs(lit), args)
-                    mk, pat = "$n { $f: x, $g: y }", "$n { $f, $g }"
-                else:
-                    decl = "#[derive(derive_more::%s)] pub enum $n { #[%s(\"u\")] U, #[%s(%s, %s)] V { $f: i32, $g: i32 } }" % (derive, attr, attr, lit_rs(lit), args)
-                    mk, pat = "$n::V { $f: x, $g: y }", "$n::V { $f, $g }"
-                mod = """use super::*;
-#[allow(dead_code)] fn f(a: i32, b: i32) -> i32 { a - b }
-macro_rules! mk { ($n:ident { $f:ident, $g:ident }, $e:expr, $e2:expr, $s:stmt, $i:item) => {
-    %s
-    impl $n {
-        pub fn make(x: i32, y: i32) -> Self { %s }
-        #[allow(unreachable_patterns)] pub fn want(&self) -> String { match self { %s => format!(%s, %s), _ => unreachable!() } }
-    }
-} }
-mk!(S { x, y }, %s, %s, let _k = 1, #[allow(dead_code)] const K2: i32 = 2;);
-pub fn run(r: &mut R) {
-    for x in [-3i32, 0, 7] { for y in [2i32, -5, 11] { let val = S::make(x, y); r.eq(%s, format!(%s, val), val.want()); } }
-}""" % (decl, mk, pat, lit_rs(lit), args, frags[0], frags[1], lit_rs("%s | %s" % (lit, args)), lit_rs(ph))
-                sample = "macro_rules! mk { ($n:ident { $f:ident, $g:ident }, $e:expr, $e2:expr, $s:stmt, $i:item) => { %s } } mk!(S { x, y }, %s, %s, let _k = 1, #[allow(dead_code)] const K2: i32 = 2;);" % (decl, frags[0], frags[1])
-                out.append(Case("c%d" % (start + len(out)), mod, meta={"derive": derive, "shape": "macro-generated " + shape, "n": 1, "sample": sample}))
+              for shape in ("struct", "enum"):
+                  if shape == "struct":
+                      decl = "#[derive(derive_more::%s)] #[%s(%s, %s)] pub struct $n { pub $f: i32, pub $g: i32 }" % (derive, attr, lit_rs(lit), args)
+                      mk, pat = "$n { $f: x, $g: y }", "$n { $f, $g }"
+                  else:
+                      decl = "#[derive(derive_more::%s)] pub enum $n { #[%s(\"u\")] U, #[%s(%s, %s)] V { $f: i32, $g: i32 } }" % (derive, attr, attr, lit_rs(lit), args)
+                      mk, pat = "$n::V { $f: x, $g: y }", "$n::V { $f, $g }"
+                  mod = """use super::*;
+  #[allow(dead_code)] fn f(a: i32, b: i32) -> i32 { a - b }
+  #[allow(dead_code)] const K1: i32 = 3; #[allow(dead_code)] const K2: i32 = 4;
+  macro_rules! mk { ($n:ident { $f:ident, $g:ident }, $e:expr, $e2:expr, $s:stmt, $i:item) => {
+      %s
+      impl $n {
+          pub fn make(x: i32, y: i32) -> Self { %s }
+          #[allow(unreachable_patterns)] pub fn want(&self) -> String { match self { %s => format!(%s, %s), _ => unreachable!() } }
+      }
+  } }
+  mk!(S { x, y }, %s, %s, let _k = 1, #[allow(dead_code)] const K2: i32 = 2;);
+  pub fn run(r: &mut R) {
+      for x in [-3i32, 0, 7] { for y in [2i32, -5, 11] { let val = S::make(x, y); r.eq(%s, format!(%s, val), val.want()); } }
+  }""" % (decl, mk, pat, lit_rs(lit), args, frags[0], frags[1], lit_rs("%s | %s" % (lit, args)), lit_rs(ph))
+                  sample = "macro_rules! mk { ($n:ident { $f:ident, $g:ident }, $e:expr, $e2:expr, $s:stmt, $i:item) => { %s } } mk!(S { x, y }, %s, %s, let _k = 1, #[allow(dead_code)] const K2: i32 = 2;);" % (decl, frags[0], frags[1])
+                  out.append(Case("c%d" % (start + len(out)), mod, meta={"derive": derive, "shape": "macro-generated " + shape, "n": 1, "sample": sample}))
     return out
 
 
